@@ -5,12 +5,13 @@ use indexmap::IndexMap;
 use crate::frontend::DarkluaResult;
 use crate::nodes::{
     Arguments, AssignStatement, Block, DoStatement, Expression, ExpressionType, FieldExpression,
-    FunctionAssignment, FunctionCall, FunctionName, FunctionStatement, Identifier, IfStatement,
-    LastStatement, Prefix, ReturnStatement, TableEntry, TableExpression, Token, TupleArguments,
-    TupleArgumentsTokens, TypeCastExpression, TypeName, UnaryExpression, UnaryOperator,
-    VariableAssignment,
+    FunctionAssignment, FunctionCall, FunctionExpression, FunctionName, FunctionStatement,
+    Identifier, IfStatement, LastStatement, Prefix, ReturnStatement, TableEntry, TableExpression,
+    Token, TupleArguments, TupleArgumentsTokens, TypeCastExpression, TypeName, UnaryExpression,
+    UnaryOperator, VariableAssignment,
 };
 use crate::process::utils::{generate_identifier, identifier_permutator, CharPermutator};
+use crate::process::{DefaultPostVisitor, NodePostProcessor, NodePostVisitor, NodeProcessor};
 use crate::rules::bundle::RenameTypeDeclarationProcessor;
 use crate::rules::{Context, FlawlessRule, ShiftTokenLine};
 use crate::utils::lines;
@@ -24,6 +25,54 @@ pub(crate) struct BuildModuleDefinitions {
     module_definitions: IndexMap<String, ModuleDefinition>,
     module_name_permutator: CharPermutator,
     rename_type_declaration: RenameTypeDeclarationProcessor,
+}
+
+/// Finds out if a module uses the variable arguments (`...`) of its main chunk, i.e.
+/// outside of any function it defines.
+#[derive(Debug, Default)]
+struct FindChunkVariableArguments {
+    function_depth: usize,
+    found: bool,
+}
+
+impl NodeProcessor for FindChunkVariableArguments {
+    fn process_function_statement(&mut self, _: &mut FunctionStatement) {
+        self.function_depth += 1;
+    }
+
+    fn process_local_function_statement(&mut self, _: &mut FunctionAssignment) {
+        self.function_depth += 1;
+    }
+
+    fn process_function_expression(&mut self, _: &mut FunctionExpression) {
+        self.function_depth += 1;
+    }
+
+    fn process_expression(&mut self, expression: &mut Expression) {
+        if self.function_depth == 0 && matches!(expression, Expression::VariableArguments(_)) {
+            self.found = true;
+        }
+    }
+}
+
+impl NodePostProcessor for FindChunkVariableArguments {
+    fn process_after_function_statement(&mut self, _: &mut FunctionStatement) {
+        self.function_depth -= 1;
+    }
+
+    fn process_after_local_function_statement(&mut self, _: &mut FunctionAssignment) {
+        self.function_depth -= 1;
+    }
+
+    fn process_after_function_expression(&mut self, _: &mut FunctionExpression) {
+        self.function_depth -= 1;
+    }
+}
+
+fn uses_chunk_variable_arguments(block: &mut Block) -> bool {
+    let mut processor = FindChunkVariableArguments::default();
+    DefaultPostVisitor::visit_block(block, &mut processor);
+    processor.found
 }
 
 #[derive(Debug)]
@@ -235,9 +284,18 @@ impl BuildModuleDefinitions {
                         MODULE_CONTENT_ENTRY,
                     )));
 
+                // a chunk is a variadic function: keep `...` valid inside the module function
+                let mut module_block = module.block;
+                let is_variadic = uses_chunk_variable_arguments(&mut module_block);
+                let mut module_function =
+                    FunctionAssignment::from_name(LOCAL_MODULE_IMPL_NAME, module_block);
+                if is_variadic {
+                    module_function = module_function.variadic();
+                }
+
                 DoStatement::new(Block::new(
                     vec![
-                        FunctionAssignment::from_name(LOCAL_MODULE_IMPL_NAME, module.block).into(),
+                        module_function.into(),
                         FunctionStatement::new(function_name, cached_block, Vec::new(), false)
                             .with_return_type(ExpressionType::new(FunctionCall::from_name(
                                 LOCAL_MODULE_IMPL_NAME,
